@@ -7,14 +7,15 @@ open FatVerif.FileSim DirEntryData
 
 /-- a slot write hit by the fault leaves a device satisfying `Q` (`P`: the streams this is claimed for) -/
 def FaultKeepsQ (Inv Q : Dev → Prop) (P : DirStream → Prop) : Prop :=
-  ∀ (d1 d2 : Dev) (st : DirStream) (e : DirEntryData) (r : Except Err DirStream), P st → d1.fault = none →
-    Inv d1.disarm → run (writeSlot st e) d1 = (r, d2) → d2.fault ≠ none → Q d2
+  ∀ (d1 d2 : Dev) (st : DirStream) (e : DirEntryData) (r : Except Err DirStream), P st → e.serialize.length = 32 →
+    d1.fault = none → Inv d1.disarm → run (writeSlot st e) d1 = (r, d2) → d2.fault ≠ none →
+    (∀ f, d2.fault = some f → f.inDrop = false) → Q d2
 
 /-- a slot write hit by the fault leaves the directory writable -/
 def FaultKeeps (Inv : Dev → Prop) (P : DirStream → Prop) : Prop := FaultKeepsQ Inv Inv P
 
 theorem faultKeepsQ_true (Inv : Dev → Prop) (P : DirStream → Prop) : FaultKeepsQ Inv (fun _ => True) P :=
-  fun _ _ _ _ _ _ _ _ _ _ => trivial
+  fun _ _ _ _ _ _ _ _ _ _ _ _ => trivial
 
 section generic
 variable {Inv : Dev → Prop} {G : Nat → DirStream} {N : Nat} {src room : Nat → Nat}
@@ -23,8 +24,8 @@ variable {Inv : Dev → Prop} {G : Nat → DirStream} {N : Nat} {src room : Nat 
     disarmed device, or the fault fired — inside a destructor, or at slot `j`: then the I/O error is carried, the stream
     is the one before slot `j`, and the directory is still writable -/
 theorem writeSlotsKeep_armed (IO : InvOK Inv) (WG : WFam Inv G G N src room) {P : DirStream → Prop} {Q : Dev → Prop}
-    (hFK : FaultKeepsQ Inv Q P) (hPG : ∀ o, o + 32 ≤ 32 * N → P (G o)) :
-    ∀ (es : List DirEntryData) (X : Nat → DirStream), WFam Inv X G N src room → (∀ o, o + 32 ≤ 32 * N → P (X o)) →
+    (hFK : FaultKeepsQ Inv Q P) (hPG : ∀ q, q + 1 ≤ N → P (G (32 * q))) :
+    ∀ (es : List DirEntryData) (X : Nat → DirStream), WFam Inv X G N src room → (∀ q, q + 1 ≤ N → P (X (32 * q))) →
     ∀ (q : Nat) (dq : Dev), dq.fault = none → Inv dq.disarm →
     (∀ e ∈ es, e.serialize.length = 32 ∧ ∀ b ∈ e.serialize, b < 256) → q + es.length ≤ N →
     ∀ r d', run (writeSlotsKeep es (X (32 * q))) dq = (r, d') →
@@ -113,7 +114,8 @@ theorem writeSlotsKeep_armed (IO : InvOK Inv) (WG : WFam Inv G G N src room) {P 
               simp only [run] at hk'
               cases hk'
               refine ⟨0, by simp, by simp, ?_⟩
-              exact hFK dq _ _ e _ (hPX (32 * q) (by omega)) hf hinv hw hf1
+              exact hFK dq _ _ e _ (hPX q (by omega)) hl hf hinv hw hf1
+                (fun f' h' => by rw [hff] at h'; cases h'; exact hdrop')
     · -- `attempt` re-raised a fatal error: only possible when the fault fired inside a destructor
       subst hre
       rw [run_attempt] at ha
